@@ -513,6 +513,25 @@ def resolve_strategy_inline_source(path, base, local_diff, remote_diff):
     return decisions
 
 
+# Keys of similar inserted cells whose differences can be merged into one cell
+_similar_insert_keys = ('source', 'metadata', 'id', 'execution_count', 'outputs')
+
+
+def _can_merge_similar_insert(decision):
+    """Whether a conflicted insertion of similar cells can be merged to one cell."""
+    lr_diff = decision.get('similar_insert', None)
+    if lr_diff is None:
+        return False
+    lvalues = decision.local_diff[0].valuelist
+    rvalues = decision.remote_diff[0].valuelist
+    if len(lvalues) != 1 or len(rvalues) != 1:
+        return True  # Reported as an error below
+    if lvalues[0]['cell_type'] != rvalues[0]['cell_type']:
+        # Cells aligned by id can still be of different types
+        return False
+    return all(e.key in _similar_insert_keys for e in lr_diff[0].diff)
+
+
 def resolve_strategy_inline_recurse(path, base, decisions):
     strategy = "inline-cells"
 
@@ -531,8 +550,9 @@ def resolve_strategy_inline_recurse(path, base, decisions):
                 d.common_path != ('cells',)):
             decisions.decisions.append(d)
             continue
-        if d.get('similar_insert', None) is None:
-            # Inserts not similar, cannot recurse. Markup block
+        if not _can_merge_similar_insert(d):
+            # Inserts not similar (or differing in a way that cannot be
+            # expressed within a single cell), cannot recurse. Markup block
             cells = make_inline_cell_conflict(base, d.local_diff, d.remote_diff)
             rdiff = []
             if len(d.local_diff) > 1:
